@@ -941,13 +941,16 @@ func ruleAcceptedPerforms(r *Run) {
 			for _, pn := range prims {
 				pf := r.P.FuncByName(pn)
 				called := false
-				for _, ev := range path.Events {
+				for k, ev := range path.Events {
+					if k >= iAns {
+						break // the operation comes before the success answer: an acknowledgement sent first can reach the client (and block on a slow one) while the request is not yet carried out
+					}
 					if ev.Kind == EvCall && pf != nil && ev.Callee == pf.Obj {
 						called = true
 					}
 				}
 				r.CheckT("B9", fmt.Sprintf("%s:performs[%s]", fn.Name, shortFuncName(pf.Obj)), called, fn.Body.Pos(), path,
-					"this path answers the request with success without calling %s: the request is acknowledged and not carried out [path %s]", shortFuncName(pf.Obj), r.pathSig(path))
+					"this path answers the request with success without having called %s first: the request is acknowledged and not (yet) carried out [path %s]", shortFuncName(pf.Obj), r.pathSig(path))
 			}
 		}
 	}
